@@ -162,6 +162,7 @@ def run(ctx: Ctx) -> None:
     from .. import autograd_lint
     autograd_lint.saved_inplace(ctx, FUNC_MODULES + [m for m in CLASS_MODULES if m in ctx.prog.modules])
     autograd_lint.hook_receiver(ctx, [m for m in CLASS_MODULES if m in ctx.prog.modules])
+    autograd_lint.update_order(ctx, [m for m in CLASS_MODULES if m in ctx.prog.modules and m.startswith("deepali.spatial")])
 
 
 def mutants(prog):
@@ -201,6 +202,8 @@ def mutants(prog):
         ("generic: affine components own their parameters although a network predicts them", "deepali.spatial.generic", "GenericSpatialTransform.__init__", "kwargs = dict(grid=grid, params=params if isinstance(params, bool) else None)", "kwargs = dict(grid=grid, params=params if isinstance(params, bool) else True)", "T20.generic-leaf"),
         ("generic update: predicted values detached", "deepali.spatial.generic", "GenericSpatialTransform.update", "transform.data_(p)", "transform.data_(p.detach())", "T20.generic-leaf"),
         ("conv1d: kernel always float32", CI, "conv1d", "if is_float_dtype(dtype):\n        kernel = kernel.type(dtype)", "if is_float_dtype(dtype):\n        kernel = kernel.type(torch.float)", "T5.dtype"),
+        ("svffd update: spline evaluated before the parameter buffer is refreshed", S, "StationaryVelocityFreeFormDeformation.update", "super().update()\n    v = self.evaluate_spline()", "v = self.evaluate_spline()\n    super().update()", "E8.update-order"),
+        ("ddf update: field evaluated before the parameter buffer is refreshed", N, "DisplacementFieldTransform.update", "super().update()\n    u = self.evaluate()", "u = self.evaluate()\n    super().update()", "E8.update-order"),
     ]
     for name, mod, fn, old, new, expect in specs:
         if expect == "SKIP":
